@@ -37,6 +37,89 @@ func c06(c *Ctx) {
 	// what the client echoes to the server is what it received, as received: pq travels back as the very string
 	// of resPQ (a re-rendering of the parsed number drops the leading zero bytes of a fixed-width pq), the nonces as
 	// the values drawn / received
+	// "whatever Diffie-Hellman group the server uses": the specification lets the server pick g from 2, 3, 4, 5, 6, 7.
+	// With the comparisons of server_DH_inner_data.g against constants decided for each of them (everything else left
+	// open), the computation of the key must stay reachable - a check that lists five generators refuses the sixth
+	r.Rule("R06.G", "for every generator the specification allows (g = 2..7) the call of MakeGAB in makeAuthKey is reachable when the tests of server_DH_inner_data.g against constants are decided for that value", 6)
+	if f := c.fn("R06.G", load.RootMod, "*MTProto", "makeAuthKey"); f != nil {
+		var target *ssa.BasicBlock
+		for _, cs := range an.Calls(f) {
+			if cs.Name == load.MathPkg+".MakeGAB" {
+				target = cs.Block
+			}
+		}
+		isG := func(v ssa.Value) bool {
+			for {
+				cv, ok := v.(*ssa.Convert)
+				if !ok {
+					break
+				}
+				v = cv.X
+			}
+			ld, ok := v.(*ssa.UnOp)
+			if !ok || ld.Op != token.MUL {
+				return false
+			}
+			fa, ok := ld.X.(*ssa.FieldAddr)
+			return ok && an.FieldName(fa.X.Type(), fa.Field) == "objects.ServerDHInnerData.G"
+		}
+		if target == nil {
+			r.Undecide("R06.G", "generator", c.pos(f.Pos()), "no call of math.MakeGAB in makeAuthKey")
+		} else {
+			for g := int64(2); g <= 7; g++ {
+				g := g
+				tests := 0
+				decide := func(i *ssa.If) (int, bool) {
+					cd, ok := an.Classify(i)
+					if !ok || (cd.Kind != "eq" && cd.Kind != "ord") {
+						return 0, false
+					}
+					x, y, rel := cd.X, cd.Y, cd.Rel
+					k, isK := an.ConstInt(y)
+					if !isG(x) || !isK {
+						if k2, isK2 := an.ConstInt(x); isK2 && isG(y) {
+							// constant on the left: mirror the relation
+							k, isK = k2, true
+							switch rel {
+							case "<":
+								rel = ">"
+							case "<=":
+								rel = ">="
+							case ">":
+								rel = "<"
+							case ">=":
+								rel = "<="
+							}
+						} else {
+							return 0, false
+						}
+					}
+					_ = isK
+					tests++
+					var holds bool
+					if cd.Kind == "eq" {
+						return cd.EdgeWhen(g == k).Succ, true
+					}
+					switch rel {
+					case "<":
+						holds = g < k
+					case "<=":
+						holds = g <= k
+					case ">":
+						holds = g > k
+					case ">=":
+						holds = g >= k
+					}
+					if holds {
+						return 0, true
+					}
+					return 1, true
+				}
+				reach := an.ReachWith(f, nil, decide)
+				r.Check(reach[target], "R06.G", sprintf("generator:g=%d", g), c.pos(f.Pos()), sprintf("with %d test(s) of g decided for g = %d the key computation is unreachable: a conformant server using this generator is refused", tests, g))
+			}
+		}
+	}
 	r.Rule("R06.E", "the values the exchange echoes are stored as received: p_q_inner_data.pq is resPQ.pq itself, the nonce fields of p_q_inner_data and client_DH_inner_data are the RandomInt128 drawn for req_pq and resPQ.server_nonce themselves", 5)
 	if f := c.fn("R06.E", load.RootMod, "*MTProto", "makeAuthKey"); f != nil {
 		want := map[string]string{
